@@ -185,12 +185,16 @@ func (fr *Frame) invoke(ins ssa.Instruction, recv *Val, it types.Type, m *types.
 			vc.unsupported(fr, "no method value for "+ct.String()+"."+m.Name())
 			continue
 		}
+		payload := recv.L[1]
+		if alt, ok := recv.Alts[id]; ok {
+			payload = alt // only the values that can carry this dynamic type
+		}
 		cases = append(cases, dispatchCase{cond, func() *Val {
 			var rv *Val
 			if isPtrT(ct) {
-				rv = &Val{T: ct, L: []string{recv.L[1]}}
+				rv = &Val{T: ct, L: []string{payload}}
 			} else {
-				rv = fr.load(recv.L[1], ct)
+				rv = fr.load(payload, ct)
 			}
 			return fr.callFunc(ins, fn, append([]*Val{rv}, args...), nil)
 		}})
@@ -515,115 +519,65 @@ func (fr *Frame) assignLocs(assigns []Clause, scope map[string]*Val, old *State)
 // the pre-state).
 func (fr *Frame) havocAssigns(assigns []Clause, scope map[string]*Val, old *State) {
 	vc := fr.vc
-	for _, a := range assigns {
-		n := a.Expr
-		if n.Kind == "ident" && n.Name == "$heap" {
-			var keys []string
-			for k := range leafByKey {
-				keys = append(keys, k)
-			}
-			sort.Strings(keys)
-			for _, k := range keys {
-				old := vc.arr(fr.st, leafByKey[k])
-				fr.st.heap[k] = vc.fresh(k, "(Array Int "+leafByKey[k].Sort+")")
-				vc.logStore(k, "unknown!999999999", "")
-				vc.staticFrame(k, fr.st.heap[k], old)
-				fr.st.epoch[k] = [2]string{fr.st.heap[k], fr.st.wm}
-			}
-			for _, g := range []string{"$alloc", "$elems"} {
-				fr.st.ghost[g] = vc.fresh("g_"+sanitize(g), "Int")
-			}
-			continue
+	locs, allHeap, ghosts := fr.assignLocs(assigns, scope, old)
+	if allHeap {
+		var keys []string
+		for k := range leafByKey {
+			keys = append(keys, k)
 		}
-		if n.Kind == "ident" && len(n.Name) > 0 && n.Name[0] == '$' {
-			fr.st.ghost[n.Name] = vc.fresh("g_"+sanitize(n.Name), "Int")
-			continue
+		sort.Strings(keys)
+		for _, k := range keys {
+			oldArr := vc.arr(fr.st, leafByKey[k])
+			fr.st.heap[k] = vc.fresh(k, "(Array Int "+leafByKey[k].Sort+")")
+			vc.logStore(k, "unknown!999999999", "")
+			vc.staticFrame(k, fr.st.heap[k], oldArr)
+			fr.st.epoch[k] = [2]string{fr.st.heap[k], fr.st.wm}
 		}
-		env := &evalEnv{fr: fr, scope: scope, st: old, old: old, bound: map[string]string{}}
-		var addr string
-		var t types.Type
-		var rng *Val
-		skipEmpty := false
-		ok := func() (ok bool) {
-			defer func() {
-				if r := recover(); r != nil {
-					if e, isE := r.(evalError); isE {
-						vc.unsupported(fr, "assigns: "+e.msg+" in `"+a.Src+"`")
-						ok = false
-						return
-					}
-					panic(r)
-				}
-			}()
-			vc.specDepth++
-			saveReach, saveSt := fr.reach, fr.st
-			defer func() { vc.specDepth--; fr.reach, fr.st = saveReach, saveSt }()
-			if n.Kind == "call" && n.Args[0].Kind == "ident" && n.Args[0].Name == "elems" {
-				rng = env.eval(n.Args[1]) // all elements of a slice
-				return true
-			}
-			if n.Kind == "slice" {
-				// x[lo:hi], clipped to the slice: nothing outside x is named
-				x := env.eval(n.Args[0])
-				if x.L[1] == "0" {
-					skipEmpty = true
-					return true // nothing can be written through an empty slice
-				}
-				lo, hi := "0", x.L[1]
-				if n.Args[1] != nil {
-					lo = env.intOf(env.eval(n.Args[1]))
-				}
-				if n.Args[2] != nil {
-					hi = env.intOf(env.eval(n.Args[2]))
-				}
-				lo = ite(lt(lo, "0"), "0", lo)
-				hi = ite(gt(hi, x.L[1]), x.L[1], hi)
-				cnt := ite(lt(hi, lo), "0", sub(hi, lo))
-				es := intLit(int64(slots(elemOf(x.T))))
-				rng = &Val{T: x.T, L: []string{add(x.L[0], mul(lo, es)), cnt, cnt}}
-				return true
-			}
-			addr, t = env.addrOf(n)
-			return true
-		}()
-		if !ok || skipEmpty {
-			continue
+		for _, g := range []string{"$alloc", "$elems"} {
+			fr.st.ghost[g] = vc.fresh("g_"+sanitize(g), "Int")
 		}
-		if rng != nil {
-			et := elemOf(rng.T)
-			lo := rng.L[0]
-			hi := add(lo, mul(rng.L[1], intLit(int64(slots(et)))))
-			done := map[string]bool{}
-			for _, l := range flatten(et) {
-				if done[l.Key] {
-					continue
-				}
-				done[l.Key] = true
+	}
+	for _, g := range ghosts {
+		fr.st.ghost[g] = vc.fresh("g_"+sanitize(g), "Int")
+	}
+	if allHeap {
+		return
+	}
+	for _, loc := range locs {
+		if loc.cell {
+			for _, l := range flatten(loc.t) {
 				rememberLeaf(l)
-				oldArr := vc.arr(fr.st, l)
-				vc.logStore(l.Key, lo, sub(hi, lo))
-				nw := vc.fresh(l.Key, "(Array Int "+l.Sort+")")
-				lo2, hi2 := lo, hi
-				vc.addAxiomArr(l.Key, nw, oldArr, fmt.Sprintf("(forall ((a Int)) (! (=> (not (and (<= %s a) (< a %s))) (= (select %s a) (select %s a))) :pattern ((select %s a))))",
-					lo, hi, nw, oldArr, nw), func(idx string) (string, []string) {
-					return imp(not(and(le(lo2, idx), lt(idx, hi2))), eq(sel(nw, idx), sel(oldArr, idx))), nil
-				})
-				fr.st.heap[l.Key] = nw
+				a := add(loc.addr, intLit(int64(l.Slot)))
+				v := vc.fresh(fr.prefix+"_hv", l.Sort)
+				vc.logStore(l.Key, a, "")
+				vc.setArr(fr.st, l, store(vc.arr(fr.st, l), a, v))
 			}
+			save := fr.st
+			nv := fr.load(loc.addr, loc.t)
+			fr.st = save
+			vc.assume(typeInv(loc.t, nv.L, fr.st.wm))
 			continue
 		}
-		for _, l := range flatten(t) {
-			rememberLeaf(l)
-			a := add(addr, intLit(int64(l.Slot)))
-			v := vc.fresh(fr.prefix+"_hv", l.Sort)
-			vc.logStore(l.Key, a, "")
-			vc.setArr(fr.st, l, store(vc.arr(fr.st, l), a, v))
+		if loc.lo == loc.hi {
+			continue
 		}
-		// type invariants of the havoced cell
-		save := fr.st
-		nv := fr.load(addr, t)
-		fr.st = save
-		vc.assume(typeInv(t, nv.L, fr.st.wm))
+		done := map[string]bool{}
+		for _, l := range flatten(loc.elemT) {
+			if done[l.Key] {
+				continue
+			}
+			done[l.Key] = true
+			rememberLeaf(l)
+			oldArr := vc.arr(fr.st, l)
+			vc.logStore(l.Key, loc.lo, sub(loc.hi, loc.lo))
+			nw := vc.fresh(l.Key, "(Array Int "+l.Sort+")")
+			lo2, hi2 := loc.lo, loc.hi
+			vc.addAxiomArr(l.Key, nw, oldArr, fmt.Sprintf("(forall ((a Int)) (! (=> (not (and (<= %s a) (< a %s))) (= (select %s a) (select %s a))) :pattern ((select %s a))))",
+				lo2, hi2, nw, oldArr, nw), func(idx string) (string, []string) {
+				return imp(not(and(le(lo2, idx), lt(idx, hi2))), eq(sel(nw, idx), sel(oldArr, idx))), nil
+			})
+			fr.st.heap[l.Key] = nw
+		}
 	}
 }
 
